@@ -394,3 +394,88 @@ def run_property(prop, module, facts_dir, tier, seed, extra=None, write_evidence
     for r in per_rule.values():
         print("  %-10s %-14s n=%-4d ok=%-4d known=%d viol=%d  %s" % (r["rule"], r.get("template", ""), r.get("instances", 0), r["ok"], r["known"], r["violation"], r.get("title", "")))
     return 1 if violations else 0
+
+
+# ---------------------------------------------------------------------------------------------
+# regions
+# ---------------------------------------------------------------------------------------------
+def arm_edges(ctx, body, pred):
+    """Guards (with their edges) of `body` satisfying pred."""
+    gi = ctx.gi(body)
+    return [g for g in gi.all_guards() if pred(g) and not is_tracing(g.macros)]
+
+
+def region_of(body, g):
+    return body.region_of_edge(g.edge)
+
+
+def calls_in_blocks(prog, body, blocks, regex, follow_closures=True, _seen=None):
+    """Call blocks in `blocks` of body (and in closures created there) whose callee matches."""
+    r = re.compile(regex)
+    out = []
+    _seen = _seen if _seen is not None else set()
+    for bi in sorted(blocks):
+        b = body.blocks[bi]
+        if b.cleanup:
+            continue
+        t = b.term
+        if t.kind == "call" and not is_tracing(t.macros):
+            c = t.callee or ""
+            f = t.declared or ""
+            if r.search(c) or r.search(f):
+                out.append((body, bi, c or f))
+        if follow_closures:
+            for st in b.stmts:
+                if st.kind == "assign" and st.rv["k"] == "agg" and st.rv.get("def"):
+                    ch = prog.bodies.get(st.rv["def"])
+                    if ch is not None and ch.path not in _seen:
+                        _seen.add(ch.path)
+                        out.extend(calls_in_blocks(prog, ch, ch.live_blocks(), regex, True, _seen))
+    return out
+
+
+def return_blocks(body):
+    live = body.live_blocks()
+    return [b.idx for b in body.blocks if b.term.kind == "return" and b.idx in live and not b.cleanup]
+
+
+def must_pass(body, frm, to, via_blocks, removed_edges=()):
+    """True iff every normal path frm -> to passes one of via_blocks."""
+    if frm in via_blocks:
+        return True
+    return not body.can_reach(frm, to, removed_blocks=set(via_blocks), removed_edges=removed_edges)
+
+
+def error_exit_blocks(body):
+    """Blocks that set the return value to an error (`?` residual or an explicit Err)."""
+    out = set()
+    live = body.live_blocks()
+    for b in body.blocks:
+        if b.idx not in live or b.cleanup:
+            continue
+        for st in b.stmts:
+            if st.kind == "assign" and st.dest.is_local() and st.dest.local == 0 and st.rv["k"] == "agg" and st.rv.get("var") == "Err":
+                out.add(b.idx)
+        t = b.term
+        if t.kind == "call" and t.d["d"].is_local() and t.d["d"].local == 0 and re.search(r"FromResidual.*::from_residual$", t.callee or t.declared or ""):
+            out.add(b.idx)
+    return out
+
+
+def dest_writes(ctx, body, field):
+    """Assignments whose destination, seen through reference temporaries, lies at or under a field `field`
+    (e.g. `last.response = x` with `last = &mut self.state.last_valid_request@Some.0`)."""
+    sym = ctx.sym(body)
+    out = []
+    for b, si, st in body.assigns():
+        if not st.dest.proj:
+            continue
+        if is_tracing(st.macros):
+            continue
+        if field in st.dest.fields():
+            out.append((b, si, st))
+            continue
+        e = sym.place_expr(st.dest)
+        if mentions_field(e, field):
+            out.append((b, si, st))
+    return out
